@@ -12,7 +12,13 @@ Decided - the two structural conditions without which no pipeline can be right:
     module types where the entry exists): the expressions stored in output limb i depend only on input limb i (and on the
     prepared scalar for svp_apply), together they use every coefficient of that limb, and limbs beyond the input are
     exact zeros.  (VMP_PMAT producer/consumer agreement is the layout clause of C02.)
-Consequence: an opaque object produced by one function is read by the next with the same limb geometry."""
+ P  stage dependence: output limb i of every pipeline stage (22 operations: coefficient-space arithmetic, both
+    normalizations, DFT/iDFT, big arithmetic, svp and vmp products) depends on every input limb the exact operation
+    uses - limb i for limb-wise operations, all less significant limbs for the carry chains of the normalizations
+    (including dropped limbs when a_size > res_size and the strided range variant), every row for the matrix products.
+    A missing dependence is a sound refutation (a value that does not mention a limb cannot depend on it).
+Consequence: an opaque object produced by one function is read by the next with the same limb geometry, and no stage
+drops information that the exact expression needs."""
 import re
 
 from .. import ctx
@@ -200,13 +206,132 @@ def layout(L, R, tier):
     return nruns
 
 
+# ---------------------------------------------------------------------------------------------------------------------
+# P  stage dependence: the limb-level dependence relation of every pipeline stage.  In exact polynomial arithmetic output
+#    limb i of each operation is a function of a known set of input limbs, and of all of them (carry chains of the
+#    normalizations reach every less significant limb, a matrix product sums every row).  A stage that consumes fewer
+#    limbs than that (a truncated carry chain, a skipped row) or other limbs cannot be exact in a pipeline whose
+#    intermediate objects are un-normalized.  Decided from the E4 support sets of the stored expressions.
+def _same(inp):
+    return lambda sh, i, n: {(inp, i)} if i < n[inp] else set()
+
+
+def _both(sh, i, n):
+    return ({('a', i)} if i < n['a'] else set()) | ({('b', i)} if i < n['b'] else set())
+
+
+def _carry(sh, i, n):
+    return {('a', j) for j in range(i, n['a'])} if i < n['a'] else set()
+
+
+def _carry_range(sh, i, n):
+    idx = list(range(sh['a_range_begin'], sh['a_range_xend'], sh['a_range_step']))
+    return {('a', idx[j]) for j in range(i, len(idx))} if i < len(idx) else set()
+
+
+def _rows(inp):
+    def f(sh, i, n):
+        if i >= sh['ncols']:
+            return set()
+        rows = min(n[inp], sh['nrows'])
+        return ({(inp, r) for r in range(rows)} | {('pmat', None)}) if rows else set()
+    return f
+
+
+def _svp(sh, i, n):
+    return {('a', i), ('ppol', None)} if i < n['a'] else set()
+
+
+STAGES = {
+    'vec_znx_copy': ('res', _same('a')), 'vec_znx_negate': ('res', _same('a')),
+    'vec_znx_rotate': ('res', _same('a')), 'vec_znx_automorphism': ('res', _same('a')),
+    'vec_znx_add': ('res', _both), 'vec_znx_sub': ('res', _both),
+    'vec_znx_normalize_base2k': ('res', _carry),
+    'vec_znx_dft': ('res', _same('a')), 'vec_znx_idft': ('res', _same('a_dft')), 'vec_znx_idft_tmp_a': ('res', _same('a_dft')),
+    'vec_znx_big_add': ('res', _both), 'vec_znx_big_sub': ('res', _both),
+    'vec_znx_big_add_small': ('res', _both), 'vec_znx_big_add_small2': ('res', _both),
+    'vec_znx_big_sub_small_a': ('res', _both), 'vec_znx_big_sub_small_b': ('res', _both), 'vec_znx_big_sub_small2': ('res', _both),
+    'vec_znx_big_normalize_base2k': ('res', _carry),
+    'vec_znx_big_range_normalize_base2k': ('res', _carry_range),
+    'svp_apply_dft': ('res', _svp),
+    'vmp_apply_dft': ('res', _rows('a')), 'vmp_apply_dft_to_dft': ('res', _rows('a_dft')),
+}
+
+
+def stage_dependence(L, R, tier):
+    box = ApiBox(L)
+    nruns = 0
+    for name, (outn, expect) in STAGES.items():
+        if name not in API:
+            R.broke('pipeline stage %s is not in the API contract' % name)
+            continue
+        mods = [FFT64] + ([NTT120] if name in NTT120_FUNCS else [])
+        for mtype in mods:
+            for cpu in (('accel', 'generic') if mtype == FFT64 else ('accel',)):
+                bad = None
+                shapes = [sh for sh in shapes_for(name, tier) if sh['N'] <= (8 if tier == 'quick' else 32)]
+                for sh in shapes:
+                    try:
+                        r = box.instantiate(name, sh, cpu, mtype, expand='values')
+                    except (Unsupported, NeedEnum) as e:
+                        R.broke('%s %s: %s' % (name, sh, e))
+                        continue
+                    nruns += 1
+                    if r.status != 'ok':
+                        bad = bad or (sh, 'call %s' % (r.status,))
+                        continue
+                    out = r.bufs[outn]
+                    st = final_state(r, ('out',)).get(outn, {})
+                    ins = {b.name: b for b in r.bufs.values() if b.role in ('in', 'inout') and b.name != outn}
+                    nl = {nm: (b.nlimbs if b.nlimbs is not None else 1) for nm, b in ins.items()}
+                    per = {}
+                    for off, (sz, v) in st.items():
+                        i, w = divmod(off, out.stride or out.nbytes or 1)
+                        if out.limb is not None and w >= out.limb:
+                            continue
+                        d = per.setdefault(i, set())
+                        for (bn, o, _) in support(v):
+                            b = ins.get(bn)
+                            if b is None:
+                                continue
+                            if b.nlimbs is None:
+                                d.add((bn, None))
+                            else:
+                                j, w2 = divmod(o, b.stride)
+                                d.add((bn, j))
+                    for i in range(out.nlimbs or 0):
+                        got = per.get(i, set())
+                        want = expect(sh, i, nl)
+                        miss, extra = want - got, got - want
+                        if miss:
+                            bn, j = sorted(miss, key=str)[0]
+                            bad = bad or (sh, 'limb %d of `%s` does not depend on %s of `%s`, which the exact operation uses' % (
+                                i, outn, 'limb %d' % j if j is not None else 'the content', bn))
+                        elif extra and len(R.info) < 50:
+                            # syntactic dependence only: reported, not a verdict (an expression may mention a limb and
+                            # not depend on it); the limb-geometry clause O decides foreign limbs for the opaque types
+                            bn, j = sorted(extra, key=str)[0]
+                            R.info.append('%s %s: limb %d of `%s` mentions %s of `%s`' % (
+                                name, sh, i, outn, 'limb %d' % j if j is not None else 'the content', bn))
+                subj = '%s [%s,%s]' % (name, 'fft64' if mtype == FFT64 else 'ntt120', cpu)
+                if bad:
+                    R.ob('stage-consumes-exactly-the-limbs-of-the-exact-operation', subj, 'refuted', detail=bad[1],
+                         key='%s:stage-dependence' % name, witness=dict(bad[0], cpu=cpu))
+                else:
+                    R.ob('stage-consumes-exactly-the-limbs-of-the-exact-operation', subj, 'holds', detail='%d shapes' % len(shapes),
+                         nontrivial=len(shapes) > 0)
+    return nruns
+
+
 def run(tier):
     R = Report('C16', tier)
     L, G = ctx.lib(), ctx.cg()
     nw = dispatch(L, G, R)
     R.floor('public wrappers checked', nw, 38)
     nr = layout(L, R, tier)
-    R.evaluations = nr + nw
+    ns = stage_dependence(L, R, tier)
+    R.floor('value-mode instantiations for the stage-dependence clause', ns, 15000)
+    R.evaluations = nr + nw + ns
     R.floor('value-mode instantiations for the layout clause', nr, 900)
     R.rules.append('obligation = (clause, wrapper | function x module x cpu)')
     R.assumptions += ['the value of pipelines (exactness of FFT64 / NTT120 arithmetic) is not decided',
